@@ -219,6 +219,12 @@ def _fuzzdec(g, scale):
     for it in range(int(150 * scale)):
         conts = rand_conts(g, n=r.choice([0, 1, 2, 3, 4, 5]), small=r.random() < 0.7)
         data = enc_stream(conts, run_cookie=r.choice([None, True]), split_runs=r if r.random() < 0.2 else None)
+        if it % 3 == 0 and len(data) < 40000:
+            # the stream without its last one / two / three bytes, through every entry point (text entry points pad)
+            for cut in (1, 2, 3):
+                for e in ("base64", r.choice(["readfrom", "frombuffer", "fromunsafe", "unmarshal"])):
+                    g.emit("dec %s %s %s" % (g.fresh(), e, data[:len(data) - cut].hex()))
+                    g.count("mut:lastbytes")
         for _ in range(3):
             m = mutate(g, data, conts) if r.random() < 0.9 else data
             if len(m) > 40000:
